@@ -205,11 +205,14 @@ pub struct CorridorOpts {
     pub p_yard: f64,
     pub p_lockout: f64,
     pub p_branch: f64,
+    /// probability of a corridor whose interior stages are short (0.6-1.4 km): a train that
+    /// ends its run on an interior stage then straddles several segments
+    pub p_short_ends: f64,
 }
 
 impl Default for CorridorOpts {
     fn default() -> Self {
-        Self { max_stages: 7, min_seg: 1500.0, max_seg: 20000.0, min_terminal: 2500.0, p_yard: 0.7, p_lockout: 0.0, p_branch: 0.0 }
+        Self { max_stages: 7, min_seg: 1500.0, max_seg: 20000.0, min_terminal: 2500.0, p_yard: 0.7, p_lockout: 0.0, p_branch: 0.0, p_short_ends: 0.0 }
     }
 }
 
@@ -227,13 +230,15 @@ pub fn gen_corridor(g: &mut Gen, o: &CorridorOpts) -> CorridorSpec {
     // make_est_times with a descriptive error; keep a small share of it
     let n = if g.bool(0.03) { 1 } else { g.usize(2, o.max_stages.max(2)) };
     let mut stages: Vec<StageSpec> = vec![];
+    let short_ends = o.p_short_ends > 0.0 && n >= 4 && g.bool(o.p_short_ends);
     for i in 0..n {
         let terminal = i == 0 || i + 1 == n;
         let prev_siding = stages.last().map(|s: &StageSpec| s.side.is_some()).unwrap_or(false);
         // two sidings may never abut (coincident switch points)
         let siding = !prev_siding && if terminal { g.bool(o.p_yard) } else { g.bool(0.55) };
-        let lo = if terminal { o.min_terminal } else { o.min_seg };
-        let main = gen_seg(g, lo, o.max_seg.max(lo * 1.5), 10.0);
+        let near_end = !terminal;
+        let (lo, hi) = if short_ends && near_end { (600.0, 1400.0) } else { (if terminal { o.min_terminal } else { o.min_seg }, 0.0) };
+        let main = gen_seg(g, lo, if hi > 0.0 { hi } else { o.max_seg.max(lo * 1.5) }, 10.0);
         let side = if siding {
             let mut s = gen_seg(g, lo, (main.length * 1.3).max(lo * 1.2), 7.5);
             // a siding is usually close to the main's length
